@@ -6,7 +6,49 @@ import json, subprocess, sys
 ALL = ["C%02d" % i for i in range(1, 21)]
 
 # id -> (engine, category, technique, level text, level note, design ref)
+E1_NOTE = "Trusted base: the harness's transliteration of the per-transaction select! loop (world.rs; validated against the real daemon loop by the daemon-dbx conformance runs), hooks H1 (virtual clock), H3 (loop accessors), H4 (state fingerprint, audited at run time as a bisimulation). Bounded: files <= 3 segments of 16/24 bytes, fault pool F <= 2 (3 for drops), max_count <= 4."
+
 CHECKS = {
+    "C01": ("txn-mc", "model_checking",
+            "explicit-state BFS to closure over event histories; every transition calls the real SendTransaction/RecvTransaction handlers; monitor on every Finished indication",
+            "All reachable states of the real sender/receiver pair under an adversarial link (drop, duplicate, overtake, delay past a timer, payload corruption with CRC on) with a shared fault pool F=1 (quick) / F=2 (thorough), both modes, closure on/off, deferred/immediate NAK with and without delay, Modular/Null checksum, contents chosen to be checksum-neutral in the first/middle/last segment; at every success indication of either entity and in every terminal state the destination file must equal the source.",
+            E1_NOTE, "DESIGN.md section 4 C01"),
+    "C02": ("txn-mc", "model_checking",
+            "explicit-state BFS to closure over the real handlers; terminal-state oracle plus deadlock and cycle (livelock) detection on the state graph",
+            "Acknowledged mode, every placement of up to F faults (drop/duplicate/overtake/delay; F=1, F=2 on small files quick; F=2 everywhere and F=3 drops-only with limit 4 thorough) over all PDUs of both directions, sizes 0,1,seg-1,seg,seg+1,2seg,(3seg-1), four NAK procedures, CRC variant: every terminal state must have destination == source, receiver and sender success indications, both transactions ended; no deadlock, no cycle.",
+            E1_NOTE, "DESIGN.md section 4 C02"),
+    "C03": ("txn-mc", "model_checking",
+            "explicit-state BFS to closure with blackout as an ordinary event (placed before/after every PDU), graph conditions: no deadlock state, no cycle, time bound per path",
+            "Blackout of either/both directions at every state of the exchange, plus independently the C02 fault pool; both modes, closure, NAK procedures, max_count 2 (and 3 thorough), default and Abandon handlers: no Active transaction is ever left without an enabled event (deadlock), the time-abstract state graph is acyclic (no livelock), and every transaction ends within (max_count+1)*(inactivity+ack+nak) virtual seconds after the last PDU delivered to it.",
+            E1_NOTE + " The daemon-level clause (keeps serving other transactions) is part of C11's daemon-dbx runs.", "DESIGN.md section 4 C03"),
+    "C04": ("txn-mc", "model_checking",
+            "explicit-state BFS to closure with straggler re-delivery of every PDU ever sent, armed from the receiver's first success indication",
+            "After the receiver's first NoError/Complete indication every single (quick) / double (thorough) re-delivery of any previously sent PDU, combined with F drops of ACK(EOF)/Finished/ACK(Finished): receiver filestore snapshot (destination and the files of a non-idempotent append request) never changes, no checksum/size failure is reported or sent, the sender reports success only if the receiver did. File transfers and request-only transactions, Modular and Null checksum, acknowledged and unacknowledged+closure.",
+            E1_NOTE, "DESIGN.md section 4 C04"),
+    "C07": ("txn-mc", "model_checking",
+            "explicit-state BFS to closure; the explorer injects NAK PDUs from an alphabet of conforming and non-conforming request lists at every state; monitor on every PDU the sender emits",
+            "Every PDU the real sender hands to the transport is checked: file data bytes/offset/length against the source, first pass tiles the file once in order before EOF, retransmissions lie inside what was requested and everything requested inside the file is retransmitted before the sender goes idle, cursor unchanged by retransmissions, metadata/EOF fields (size, names, reference checksum), header ids/mode/direction, length field through encode/decode. NAK alphabet: empty, beyond EOF, longer than a segment, overlapping, unsorted, duplicated, the 0-0 marker; 1 (quick) / 2 (thorough) injected NAKs also during the first pass; plus real-receiver NAKs under F faults.",
+            E1_NOTE + " Inverted ranges (start > end) are not in the alphabet: the property does not list them.", "DESIGN.md section 4 C07"),
+    "C08": ("txn-mc", "model_checking",
+            "explicit-state BFS to closure with drops-only pools large enough for every loss subset; fill-time oracle on the receiver's request queue (hook H3) and per-PDU well-formedness",
+            "Every subset of lost metadata/data segments for files of 0..2 (3 thorough) segments, EOF first / data after EOF / duplicated EOF / one prompt under F faults, four NAK procedures, segment size 16 (one request per NAK PDU): each NAK request non-empty or the marker, inside scope and file, PDU within the configured size, no unsolicited NAK before EOF (deferred), new gaps requested at once or after the delay (immediate), and whenever the request list is computed after EOF it equals exactly the bytes not yet delivered (+marker iff metadata missing); the receiver never finishes while something is missing.",
+            E1_NOTE, "DESIGN.md section 4 C08"),
+    "C10": ("txn-mc", "model_checking",
+            "explicit-state BFS to closure with one user cancel placed at every state, at either entity",
+            "Cancel at sender or receiver at every state of a 3-segment transfer, combined with one drop (F=1) or blackout, both modes, closure on/off: canceller ends (no deadlock, no cycle), reachable peer ends, both report CancelReceived unless the delivery had completed first (cancel lost the race) or the mode has no return path / no retransmission for the lost PDU; a file under the destination name after the cancel is always the complete source and only if the receiver reported success.",
+            E1_NOTE, "DESIGN.md section 4 C10"),
+    "C18": ("txn-mc", "model_checking",
+            "explicit-state BFS to closure over unacknowledged-mode scenarios",
+            "Unacknowledged mode x closure off/on x sizes 0,1,seg,2seg+1 x zero/neutral contents x every single (quick) / double (thorough) loss, duplication, overtaking, and blackout: the receiver never sends ACK/NAK/keep-alive (nor Finished without closure), the sender sends metadata, each segment and EOF exactly once, with closure the Finished PDU states the receiver's true outcome and the sender ends only after receiving it or exhausting a limit and reports that outcome, a receiver missing data or metadata never reports Complete, and both transactions end.",
+            E1_NOTE, "DESIGN.md section 4 C18"),
+    "C19": ("txn-mc", "model_checking",
+            "explicit-state BFS to closure with suspend and resume placed at every pair of states, idle time while suspended",
+            "User suspend then resume at every pair of states at sender or receiver, idle periods of 1 and 10 timer periods while everything is paused, optional drop: while suspended the entity emits no Metadata/FileData/EOF/NAK/Finished and declares no Fault/Abandon; after resume, when no peer timer expired during the suspension, the C02 terminal clauses hold.",
+            E1_NOTE + " The select! guard itself is exercised by the daemon-dbx conformance runs.", "DESIGN.md section 4 C19"),
+    "C20": ("txn-mc", "model_checking",
+            "explicit-state BFS to closure with keep-alive prompts, suspend/resume and limit faults at every state; the monitor keeps its own bit set of delivered bytes",
+            "Every KeepAlive PDU and every receiver Fault/Resumed/Abandon indication must state the number of distinct bytes delivered to the receiver; every sender Fault/Resumed/Abandon the highest offset+length transmitted; never above the file size, never decreasing. Sizes 0,17,47 (more thorough), lossy link, blackout scenarios with default and Abandon handlers.",
+            E1_NOTE, "DESIGN.md section 4 C20"),
     "C09": ("seq-mc", "model_checking",
             "explicit-state BFS to closure over the real Segments::merge with a bit-set reference model, all queries evaluated in every state",
             "Every merge sequence over an M-position universe (M=8 quick, 11 thorough) at three bases (0, straddling 2^32, ending at 2^64-1) is explored to closure (all 2^M held-sets per base); in every reached state all is_complete(n) and all gaps(s,e) windows are compared with a bit set, and every merge return with the growth of the union. Exhaustive within the universe, which is the right level for a pure data structure whose defects are about range shapes, not magnitudes.",
